@@ -109,6 +109,27 @@ func (s *ReplicaSession) alive() bool {
 	return s.Connected && s.Active
 }
 
+// sessionState is a copy of the fields of a session that change during its
+// life, taken under the session lock (acknowledgements, sends, the heartbeat
+// monitor and Close write them from their own goroutines).
+type sessionState struct {
+	Connected       bool
+	Active          bool
+	LastAckSequence uint64
+	LastActivity    time.Time
+}
+
+func (s *ReplicaSession) state() sessionState {
+	s.mu.Lock()
+	defer s.mu.Unlock()
+	return sessionState{
+		Connected:       s.Connected,
+		Active:          s.Active,
+		LastAckSequence: s.LastAckSequence,
+		LastActivity:    s.LastActivity,
+	}
+}
+
 // NewPrimary creates a new primary node for replication
 func NewPrimary(w *wal.WAL, config *PrimaryConfig) (*Primary, error) {
 	if w == nil {
@@ -587,7 +608,7 @@ func (p *Primary) broadcastToReplicas(response *proto.WALStreamResponse) {
 	defer p.mu.RUnlock()
 
 	for _, session := range p.sessions {
-		if !session.Connected || !session.Active {
+		if !session.alive() {
 			continue
 		}
 
@@ -604,7 +625,7 @@ func (p *Primary) broadcastToReplicas(response *proto.WALStreamResponse) {
 
 // sendToReplica sends a WAL stream response to a specific replica
 func (p *Primary) sendToReplica(session *ReplicaSession, response *proto.WALStreamResponse) {
-	if session == nil || !session.Connected || !session.Active {
+	if session == nil || !session.alive() {
 		return
 	}
 
@@ -886,8 +907,9 @@ func (p *Primary) getSessionIDFromContext(ctx context.Context) string {
 	// Log the available sessions for debugging
 	log.Info("Looking for active session in %d available sessions", len(p.sessions))
 	for id, session := range p.sessions {
+		st := session.state()
 		log.Info("Session %s: connected=%v, active=%v, lastAck=%d",
-			id, session.Connected, session.Active, session.LastAckSequence)
+			id, st.Connected, st.Active, st.LastAckSequence)
 	}
 
 	// A request without session ID can only be attributed when there is no
@@ -895,7 +917,7 @@ func (p *Primary) getSessionIDFromContext(ctx context.Context) string {
 	// replica with the acknowledgement (and with being alive).
 	if len(p.sessions) == 1 {
 		for id, session := range p.sessions {
-			if session.Connected {
+			if session.state().Connected {
 				log.Info("Selected the only session %s", id)
 				return id
 			}
@@ -955,13 +977,14 @@ func (p *Primary) maybeManageWALRetention() {
 	activeReplicas := 0
 
 	for id, session := range p.sessions {
-		if session.Connected && session.Active {
+		st := session.state()
+		if st.Connected && st.Active {
 			activeReplicas++
-			if session.LastAckSequence < minAcknowledgedSeq {
-				minAcknowledgedSeq = session.LastAckSequence
+			if st.LastAckSequence < minAcknowledgedSeq {
+				minAcknowledgedSeq = st.LastAckSequence
 			}
 			log.Info("Replica %s has acknowledged up to sequence %d",
-				id, session.LastAckSequence)
+				id, st.LastAckSequence)
 		}
 	}
 	p.mu.RUnlock()
@@ -1020,8 +1043,10 @@ func (p *Primary) Close() error {
 	p.mu.Lock()
 	for id := range p.sessions {
 		session := p.sessions[id]
+		session.mu.Lock()
 		session.Connected = false
 		session.Active = false
+		session.mu.Unlock()
 	}
 	p.sessions = make(map[string]*ReplicaSession)
 	p.mu.Unlock()
